@@ -16,5 +16,6 @@ var verifHarnesses = map[string]func(){
 	"VerifC03Forged": VerifC03Forged,
 	"VerifC04Tampered": VerifC04Tampered,
 	"VerifC02Heal": VerifC02Heal,
+	"VerifC18Close": VerifC18Close,
 	"VerifC03LocalWrite": VerifC03LocalWrite,
 }
